@@ -403,6 +403,7 @@ func SpecPrintable(s string) bool { return utils.SpecPrintableU(s) }
 //@   tags C17 C19 C16
 //@   opt scan-complete C17
 //@   results r err
+//@   loop 0 body[C16] every-processor-start-reaches-the-name-check: implies(reMatch(regex.ProcessorStartRegex, line), called(startPreprocessor) && argOf(startPreprocessor, 0) == reGroup(regex.ProcessorStartRegex, line, 1))
 //@   modifies processorStack, processor, a.lines, a.groupReplacementStringBuilder
 
 // ---- C02 (E): the patterns the code searches for cover every flag group / flag toggle the
